@@ -49,4 +49,24 @@ def marshal {V : Type} (zero : V) (ks : List JKey) (s : St V) : List (String × 
 def unmarshal {V : Type} (zero : V) (ks : List JKey) (doc : List (String × V)) (s0 : St V) : St V :=
   ks.foldl (fun s k => if k.exported || k.hasSet then setF s k.name ((doc.lookup k.key).getD zero) else s) s0
 
+
+/-! ## `,omitempty` and the name part of a tag (encoding/json's reading of the shadow struct's tags)
+
+The tag text of a key list entry is `name[,opts]`: encoding/json uses the part before the first comma as the key and leaves
+an entry out of the document when the options hold `omitempty` and the value is "empty". Both are parameters here
+(`name`, `om` on the tag text; `empty` on values). -/
+
+def withNames (name : String → String) (ks : List JKey) : List JKey := ks.map (fun k => { k with key := name k.key })
+
+def valOf {V : Type} (zero : V) (s : St V) (k : JKey) : V := if k.exported || k.hasGet then s k.name else zero
+
+/-- Marshal with `omitempty`: an entry whose tag asks for it and whose value is empty is left out -/
+def marshalO {V : Type} (zero : V) (empty : V → Bool) (name : String → String) (om : String → Bool)
+    (ks : List JKey) (s : St V) : List (String × V) :=
+  marshal zero (withNames name (ks.filter (fun k => !(om k.key && empty (valOf zero s k))))) s
+
+/-- Unmarshal reads every listed field from the key NAME of its tag (absent ⇒ zero) -/
+def unmarshalO {V : Type} (zero : V) (name : String → String) (ks : List JKey) (doc : List (String × V)) (s0 : St V) : St V :=
+  unmarshal zero (withNames name ks) doc s0
+
 end ShootVerif.Json
